@@ -17,7 +17,7 @@ import (
 func c12Docs(tier string) *TextSet {
 	return memoize("c12-"+tier, func() *TextSet {
 		n := 5
-		if tier == "thorough" {
+		if tier == "patches6" {
 			n = 6
 		}
 		docs := gen.Docs(n, 3, []V{1.0, "a", nil}, keys2)
@@ -39,11 +39,23 @@ func init() {
 			"MergePatch(target, patch) of RFC 7386 section 2; non-trivial = patch is an object with at least one member",
 		Bounds: func(tier string) map[string]interface{} {
 			d := c12Docs(tier)
-			return map[string]interface{}{"documents": d.Len(), "ordered_pairs": d.Len() * d.Len()}
+			m := map[string]interface{}{"documents": d.Len(), "ordered_pairs": d.Len() * d.Len()}
+			if tier == "thorough" {
+				m["extra_patch_documents_with_6_nodes"] = "all object documents with exactly 6 nodes, each against every target"
+			}
+			return m
 		},
 		Enum: func(tier string, e *engine.Emitter) {
 			d := c12Docs(tier)
 			pairs(e, "c12", "pairs", d, d)
+			if tier == "thorough" {
+				// deeper patch documents (6 nodes, objects only) against every target
+				p6 := c12Docs("patches6").Filter(func(v V) bool {
+					_, ok := v.(map[string]interface{})
+					return ok && ref.Nodes(v) == 6
+				})
+				pairs(e, "c12", "pairs-patch6", d, p6)
+			}
 		},
 		Run:      runC12,
 		Required: func(string) []string { return []string{"object-patch", "non-object-patch", "null-member", "empty-object-member"} },
